@@ -1,0 +1,17 @@
+//go:build verif
+
+package snapshot
+
+// SetFatalFnVerif replaces the function the Store calls when snapshot data
+// fails verification (nil makes the error propagate to the caller instead of
+// exiting the process). Simulation builds only.
+func (s *Store) SetFatalFnVerif(fn func(error)) {
+	s.fatalFn = fn
+}
+
+// SetFatalFnVerif replaces the function the Sink calls when closing an
+// incremental snapshot fails (nil makes Close return the error instead of
+// exiting the process). Simulation builds only.
+func (s *Sink) SetFatalFnVerif(fn func(error)) {
+	s.fatalFn = fn
+}
